@@ -633,6 +633,13 @@ func (m *machine) exec(op Op) {
 					if err == nil {
 						r.Event("foreign", nil)
 					}
+				case "queryevent":
+					// a query event sent from outside the workers, as a store change listener does
+					// (its callback only ever sees the final nil call here)
+					r, err := m.s.Resource(op.RID)
+					if err == nil {
+						r.QueryEvent(func(res.QueryRequest) {})
+					}
 				case "shutdown2":
 					m.mu.Lock()
 					called := m.shutCalled
